@@ -186,8 +186,16 @@ def _check_parity(case, distinct):
         gs2.fit(X, R.build_vector(case, case["y_kind"], case["y"]),
                 sensitive_features=R.build_vector(case, case["sf_kind"], R.group_labels(case)))
         need(len(gs2.predictors_) == grid_size, f"user grid of {grid_size} vectors produced {len(gs2.predictors_)} predictors")
-        need(np.allclose(np.asarray(gs2.lambda_vecs_.values, float), np.asarray(G.values, float), rtol=0, atol=0),
-             "lambda_vecs_ differs from the user-supplied grid")
+        # entry by entry *by label*: the recorded vectors are the user's vectors, whatever order the rows came in
+        L2 = gs2.lambda_vecs_
+        need(sorted(map(str, L2.index.tolist())) == sorted(map(str, G.index.tolist())), "lambda_vecs_ has other constraint labels than the user-supplied grid")
+        need(np.allclose(np.asarray(L2.values, float), np.asarray(G.reindex(L2.index).values, float), rtol=0, atol=0),
+             "lambda_vecs_ differs from the user-supplied grid (compared by constraint label)")
+        for k in range(grid_size):
+            gam_k = P.align(gs2.gammas_.iloc[:, k], f"gammas_ column {k}")
+            real_k = P.gamma(np.asarray(gs2.predictors_[k].predict(X)))
+            need(np.allclose(np.asarray(gam_k, float), np.asarray(real_k, float), rtol=0, atol=TOL_REC),
+                 f"user grid: gammas_ column {k} is not the constraint vector of predictor {k} (by label)")
         for k in range(grid_size):
             j = grid_size - 1 - k
             need(abs(float(gs2.objectives_[k]) - errs[j]) <= TOL_REC,
